@@ -30,6 +30,9 @@ func (g *Group) isNull(f *File) bool {
 
 func (g *Group) isNullItems(f *File) bool {
 	for _, c := range g.items {
+		if c == nil {
+			continue
+		}
 		if !c.isNull(f) {
 			return false
 		}
